@@ -43,6 +43,18 @@ CHECKS = {
     "C11": dict(engine="e2e", cat="exploration", tech="retention monitor: SHA-256 at hand-over vs at end, canary-filled caller buffers, forced GC to recycle pools",
                 text="Profile 'retain' (240 / 3000 scenarios + mix): with aliasing codecs handlers keep argument slices, callers keep replies (fresh and in context buffers) and both ends keep stream messages while thousands of further messages flow and GC runs every 3 virtual ms; everything is re-hashed at the end and canary bytes beyond the encoded reply must be intact.",
                 note="NoCopy modes and the server's shared context scratch buffer are documented as borrowed and excluded"),
+    "C16": dict(engine="policy", cat="exploration", tech="offline linearizability checking (porcupine) of recorded Update/route histories of a real Client over an instrumented RoundTripper in virtual time",
+                text="1500 (quick) / 40000 (thorough, plus a race build) short histories: 1-7 concurrent callers using every call form (each call carries a unique token the fake RoundTripper sees), 3-10 Update calls with overlapping, duplicate and empty target strings, Director changes, scripted health flapping, all three policies. Each history is checked with porcupine against the sequential model 'a route returns a member of the most recently supplied target set'; routes to a Director address must coincide with a Director invocation that returned it.",
+                note="call stamp = API invocation, return stamp = arrival at the RoundTripper, one logical clock; porcupine timeout (60 s) would be reported as inconclusive"),
+    "C17": dict(engine="policy", cat="exploration", tech="shadow-model runtime monitor: exact EWMA/probe/argmin model in virtual time compared with observed routes and hook VerifLatencies after every call",
+                text="900 / 30000 single-caller sequences of 120-220 calls over 2-8 live targets, policies RoundRobin/Random/LeastTime, Alpha in {0.1,0.5,0.8,0.99}, Tick in {10ms,100ms,1s}, constant/swapped/drifting latency profiles, optional refusing target: RoundRobin windows of n calls must hit n distinct targets, Random only live targets, every non-probe LeastTime call a minimal-estimate target, probes cyclic and at most one per Tick, estimates equal to the documented moving average after every call, refusing target reset to the maximum.",
+                note="hook H2 (VerifLatencies); call spacing is co-prime with Tick so that no call lands exactly on a probe boundary (the strictness of that comparison is not specified)"),
+    "C18": dict(engine="policy", cat="fault_enumeration", tech="scripted up/down histories for a real Client over an instrumented RoundTripper, exact virtual-time comparison of every caller's return instant and error identity; hook H1 in the lost-wake-up window",
+                text="1600 / 40000 histories over variants {waiters, close, fallback, failover} x DialTimeout {50ms,300ms,5s} x 1-64 concurrent callers of all six call forms x optional H1 delay before waiter registration: released waiters must have been routed within one detector tick + ping latency of a target coming up, waiters present at Close return ErrShutdown at that instant, the rest return ErrTimeout exactly at start + DialTimeout, nobody waits longer, calls after Close take zero virtual time, a refusing target stops receiving calls within 2 ticks and is used again after recovery.",
+                note="the detection bound is 2 ticks because the statement only says 'bounded'; the single-believed-live-target fast path is driven but not judged"),
+    "C20": dict(engine="lifecycle", cat="exploration", tech="leak monitor at quiescence in virtual time: goroutine dump diff restricted to library frames, memnet open-end counters, Close return values",
+                text="600 / 20000 histories: usage before Close (idle, gated in-flight calls, open streams with blocked readers, Transport pools, Client with routed or waiting callers, reset peers, abandoned context calls) x nine I/O mode combinations x every order of closing connections/Transport/Client/Server, each Close twice; afterwards no new goroutine with hslam/rpc|scheduler|writer|socket frames, no open connection end on either side, Listen returned, second Conn.Close == ErrShutdown and the other second Closes == nil.",
+                note="poll servers are excluded by the statement; goroutines are compared against a baseline taken at the start of each scenario"),
     "C19": dict(engine="sched+e2e", cat="exploration", tech="enumerated event scripts with cancel events against a scripted peer + generated deadline workloads on the real server, exact virtual-time comparison",
                 text="All scripts over {write ok/fail, response, error, duplicate, unknown, EOF, read error, Close, cancel i} for 2-3 CallWithContext operations (N=2 L<=5/6, N=3 L<=4/5, racing variants): after a cancel the call must have returned at quiescence, siblings must complete once with f(args). Plus profile 'ctx': deadlines shorter than handler delays must return exactly at the deadline (virtual time) with the context's error; context buffers must be used iff the encoded reply fits and canaries must be intact.",
                 note="cancellation while the request write itself is blocked is outside the property and not driven"),
@@ -88,6 +100,8 @@ def main():
             {"name": "sched", "path": "harness/vt/sched_test.go", "serves_properties": ["C02", "C19"], "kind_free_text": "scripted peer at the Messages level, enumerated boundary-event scripts, quiescence between events"},
             {"name": "hostile", "path": "harness/rt/hostile.go", "serves_properties": ["C08"], "kind_free_text": "crash sentinel with supervisor/worker processes and enumerated hostile frames"},
             {"name": "pool", "path": "harness/vt/pool_test.go", "serves_properties": ["C13", "C14", "C15"], "kind_free_text": "real Transport over memnet in virtual time with housekeeping, kills, hook-H1 delays"},
+            {"name": "policy", "path": "harness/vt/policy_test.go", "serves_properties": ["C16", "C17", "C18"], "kind_free_text": "real Client over a fake RoundTripper with scripted health/latency in virtual time; porcupine; shadow model"},
+            {"name": "lifecycle", "path": "harness/vt/lifecycle_test.go", "serves_properties": ["C20"], "kind_free_text": "usage x close-order histories with goroutine/connection leak monitor"},
             {"name": "cut", "path": "harness/vt/cut_test.go", "serves_properties": ["C03", "C10"], "kind_free_text": "cut-point enumeration of a scripted conversation in virtual time"},
         ],
         "checks": checks,
